@@ -411,7 +411,12 @@ impl<'a> Run<'a> {
             3 => {
                 let a = self.rng.below(len + 2);
                 let b = if self.rng.chance(1, 8) { self.hostile_len(len, start) } else { a + self.rng.below(len + 2 - a.min(len + 1)) };
-                let (pa, pb) = (start.wrapping_add(a), start.wrapping_add(b));
+                let (mut pa, pb) = (start.wrapping_add(a), start.wrapping_add(b));
+                if start > 0 && self.rng.chance(1, 6) {
+                    // a range that begins in front of the value (inside its buffer) and ends inside or at its start
+                    pa = self.rng.below(start);
+                    self.obs.count("substr_starting_before_value");
+                }
                 self.log.push(format!("v{} = v{}.substr({}, {})   [{} start={}]", self.pool.len(), i, pa, pb, cls, start));
                 self.obs.count("op:substr");
                 let r = catch(|| self.pool[i].bs.substr(pa, pb));
